@@ -47,6 +47,11 @@ def _real_pool(rep, tier, rng):
                 # whitespace-only variants of a behaviour that is in the same run (a result must depend on the exact text only)
                 beh[f"near_{i}"] = [near_miss(B[n][0], rng)] + list(B[n][1:])
                 beh[f"near2_{i}"] = [B[n][0], near_miss(B[n][0], rng)]
+        # two-part entries whose parts BOTH fail, with every ordered pair of failure kinds (the reported error is the first part's)
+        for a_, ba in enumerate(BROKEN):
+            for b_, bb in enumerate(BROKEN):
+                if a_ != b_ and (a_ + b_ + size) % 3 == 0:
+                    beh[f"bothbroken_{a_}_{b_}"] = [ba, bb]
         items = list(beh.items())
         rng.shuffle(items)
         beh = dict(items)
